@@ -1,4 +1,5 @@
 import HexProofs.Resume.FindCalcIndex
+import HexProofs.Footprint.TreesTf
 import HexProofs.Footprint.Kinds
 import HexProofs.Footprint.Trees
 /-
@@ -19,7 +20,9 @@ the new candle is a function of the last `lookback k` finished candles and the a
 `lookback k` is a closed form in the PARAMETERS (`lookback_params_only`).
 What is NOT a theorem: call / instruction counts (measured on the real code with a recording list and `sys.setprofile`, see
 hx/oracles/framework.py), the candle manager's own O(n) re-walk of the list on every append (outside the property's statement,
-which is about indicator work), wall-clock cost; object-level forms are on the base timeframe (the engine-level theorems are
+which is about indicator work), wall-clock cost; object-level forms on the base timeframe and – in BUCKETS – on a collapsing timeframe and timeframe + fill (`bounded_footprint_timeframe`,
+`append_one_recomputes_one_bucket_timeframe`, `append_timeframe_touches_only_new`: a raw candle that merges into the forming bucket or opens a
+new one recomputes exactly that bucket, as a function of the last `lookback k` closed buckets) (the engine-level theorems are
 manager-agnostic).
 Status: partial, by nature (DESIGN.md, C07).
 -/
@@ -170,5 +173,97 @@ theorem newest_reading_reads_window_object (k : Kind F) (name : String) (round :
     (candlesOf (st₁.append [x])).map List.getLast? = (candlesOf (st₂.append [x])).map List.getLast? :=
   run_newest_candle_agrees _ (hc.twinOK round) (shallow_mkTop k name round) init₁ init₂ chunks₁ chunks₂
     hp₁ hp₂ st₁ st₂ hr₁ hr₂ x hx hL₁ hL₂ hw
+
+/-! ### bounded footprint of the OBJECT on a re-collapsing manager (collapsing timeframe `TwinMgr.tf`, timeframe +
+gap filling `TwinMgr.fill`; HexProofs/Footprint/TreesTf.lean).  `mgrState M ind done act` = the object holding the
+manager's buckets `done`; `M.closed s new` = the number of buckets the raw chunk `new` leaves closed. -/
+
+/-- **`Indicator.append` on a timeframe is the engine on `closed buckets ++ Q`**, `Q` reading-free: the re-opened
+(merged – `merge_clears_keys`) bucket and the new ones -/
+theorem append_on_timeframe (M : TwinMgr F) (ind : Ind F) (s new done : List (Candle F)) (hok : M.Ok (s ++ new))
+    (hne : new ≠ []) (hd : Dressed (M.spec s) done) :
+    ∃ Q : List (Candle F), (∀ c ∈ Q, Plain c) ∧ M.closed s new ≤ done.length ∧
+      done.length ≤ M.closed s new + Q.length ∧
+      M.spec (s ++ new) = (M.spec s).take (M.closed s new) ++ Q ∧
+      Q = (M.spec (s ++ new)).drop (M.closed s new) ∧
+      (∀ act, candlesOf ((mgrState M ind done act).append new)
+        = engineCalc ind (done.take (M.closed s new) ++ Q)) ∧
+      ∀ d act, d + 1 ≤ M.closed s new →
+        candlesOf ((mgrState M ind (done.drop d) act).append new)
+          = engineCalc ind ((done.take (M.closed s new) ++ Q).drop d) :=
+  append_mgr M ind s new done hok hne hd
+
+/-- **History-length independence in BUCKETS, every class**: the object holding only `done.drop d` (`lookback k`
+closed buckets left) appends to exactly the full object's result minus those `d` buckets, or raises the same
+exception -/
+theorem bounded_footprint_timeframe (k : Kind F) (name : String) (round : Nat) (hc : CoveredTreeX name k)
+    (M : TwinMgr F) (s new done : List (Candle F)) (d : Nat) (a₁ a₂ : Int)
+    (hok : M.Ok (s ++ new)) (hne : new ≠ []) (hd : Dressed (M.spec s) done)
+    (hfin : CalcFull (mkTop k name round) done) (hkeep : d + lookback k ≤ M.closed s new) :
+    candlesOf ((mgrState M (mkTop k name round) (done.drop d) a₁).append new)
+      = (candlesOf ((mgrState M (mkTop k name round) done a₂).append new)).map (·.drop d) :=
+  bounded_footprint_mgr k name round hc M s new done d a₁ a₂ hok hne hd hfin hkeep
+
+/-- **The recomputed buckets are ONE function of the last `lookback k` closed buckets and of the re-opened (merged)
+bucket / the new buckets**, for every history, every class -/
+theorem new_buckets_window_function_timeframe (k : Kind F) (name : String) (round : Nat) (hc : CoveredTreeX name k)
+    (M : TwinMgr F) :
+    ∃ g : List (Candle F) → List (Candle F) → PyM (List (Candle F)),
+      ∀ (s new done : List (Candle F)) (act : Int), M.Ok (s ++ new) → new ≠ [] → Dressed (M.spec s) done →
+        CalcFull (mkTop k name round) done → lookback k ≤ M.closed s new →
+        ((done.take (M.closed s new)).drop (M.closed s new - lookback k)).length = lookback k ∧
+        (candlesOf ((mgrState M (mkTop k name round) done act).append new)).map (·.drop (M.closed s new))
+          = g ((done.take (M.closed s new)).drop (M.closed s new - lookback k))
+              ((M.spec (s ++ new)).drop (M.closed s new)) :=
+  new_buckets_window_function_mgr k name round hc M
+
+/-- … two histories of any lengths agreeing on those give the same new buckets -/
+theorem new_buckets_agree_timeframe (k : Kind F) (name : String) (round : Nat) (hc : CoveredTreeX name k)
+    (M : TwinMgr F) (s₁ s₂ new₁ new₂ done₁ done₂ : List (Candle F)) (a₁ a₂ : Int)
+    (hok₁ : M.Ok (s₁ ++ new₁)) (hok₂ : M.Ok (s₂ ++ new₂)) (hne₁ : new₁ ≠ []) (hne₂ : new₂ ≠ [])
+    (hd₁ : Dressed (M.spec s₁) done₁) (hd₂ : Dressed (M.spec s₂) done₂)
+    (hf₁ : CalcFull (mkTop k name round) done₁) (hf₂ : CalcFull (mkTop k name round) done₂)
+    (hL₁ : lookback k ≤ M.closed s₁ new₁) (hL₂ : lookback k ≤ M.closed s₂ new₂)
+    (hw : (done₁.take (M.closed s₁ new₁)).drop (M.closed s₁ new₁ - lookback k)
+        = (done₂.take (M.closed s₂ new₂)).drop (M.closed s₂ new₂ - lookback k))
+    (hq : (M.spec (s₁ ++ new₁)).drop (M.closed s₁ new₁) = (M.spec (s₂ ++ new₂)).drop (M.closed s₂ new₂)) :
+    (candlesOf ((mgrState M (mkTop k name round) done₁ a₁).append new₁)).map (·.drop (M.closed s₁ new₁))
+      = (candlesOf ((mgrState M (mkTop k name round) done₂ a₂).append new₂)).map (·.drop (M.closed s₂ new₂)) :=
+  append_mgr_new_buckets_agree M _ (twinOK_lookback k name round hc) (shallow_mkTop k name round)
+    s₁ s₂ new₁ new₂ done₁ done₂ a₁ a₂ hok₁ hok₂ hne₁ hne₂ hd₁ hd₂ hf₁ hf₂ hL₁ hL₂ hw hq
+
+/-- **One raw candle on a collapsing timeframe recomputes exactly ONE bucket** – the forming one it is merged into,
+or the new one it opens; every closed bucket is returned as it was, however many there are -/
+theorem append_one_recomputes_one_bucket_timeframe (k : Kind F) (name : String) (round : Nat)
+    (hc : CoveredTreeX name k) (tf : Int) (htf : 0 < tf) (s done : List (Candle F)) (x : Candle F)
+    (act : Int) (hok : RawTf (s ++ [x])) (hd : Dressed (resample tf s) done)
+    (hfin : CalcFull (mkTop k name round) done) (out : List (Candle F))
+    (h : candlesOf ((mgrState (TwinMgr.tf F tf htf) (mkTop k name round) done act).append [x]) = .ok out) :
+    (closedOf tf (resample tf s) [x] = done.length ∨ closedOf tf (resample tf s) [x] + 1 = done.length) ∧
+    ∃ q', out = done.take (closedOf tf (resample tf s) [x]) ++ [q'] ∧ hasKey name q' = true :=
+  _root_.Hex.append_one_recomputes_one_bucket k name round hc tf htf s done x act hok hd hfin out h
+
+/-- with gap filling (and for chunks of several candles): the closed buckets are returned as they were, only the
+re-opened / new / filled ones are computed -/
+theorem append_timeframe_touches_only_new (k : Kind F) (name : String) (round : Nat) (hc : CoveredTreeX name k)
+    (M : TwinMgr F) (s new done : List (Candle F)) (act : Int) (hok : M.Ok (s ++ new)) (hne : new ≠ [])
+    (hd : Dressed (M.spec s) done) (hfin : CalcFull (mkTop k name round) done) (out : List (Candle F))
+    (h : candlesOf ((mgrState M (mkTop k name round) done act).append new) = .ok out) :
+    ∃ fresh, out = done.take (M.closed s new) ++ fresh ∧
+      fresh.length = ((M.spec (s ++ new)).drop (M.closed s new)).length ∧
+      (∀ c ∈ fresh, hasKey name c = true) ∧
+      (∀ c ∈ (M.spec (s ++ new)).drop (M.closed s new), hasKey name c = false) ∧
+      Dressed (M.spec (s ++ new)) out ∧ CalcFull (mkTop k name round) out := by
+  have := append_mgr_touches_only_new M (mkTop k name round) (hc.twinOK round) s new done act hok hne hd hfin out h
+  simpa [mkTop, Ind.name] using this
+
+/-- the state after ANY returned run on such a manager is dressed and finished (the hypotheses above) -/
+theorem finished_after_run_timeframe (k : Kind F) (name : String) (round : Nat) (hc : CoveredTreeX name k)
+    (M : TwinMgr F) (init : List (Candle F)) (chunks : List (List (Candle F)))
+    (hok : M.Ok (init ++ chunks.flatten)) (st : IndState F)
+    (h : runIndicator (mkTop k name round) M.cfg init chunks = .ok st) :
+    ∃ out act, st = mgrState M (mkTop k name round) out act ∧
+      Dressed (M.spec (init ++ chunks.flatten)) out ∧ CalcFull (mkTop k name round) out :=
+  run_finished_mgr k name round hc M init chunks hok st h
 
 end Hex.C07
